@@ -449,3 +449,201 @@ def gen_verbatim(rng, fmt, strategy, force, opts=None, inner=None):
     case["repeats"] = [sorted(hows), bool(inner), flavour]
     case["opts"] = sorted(set(case.get("opts", []) + ["verbatim"] + (["inner"] if inner else [])))
     return case
+
+
+# ---------------------------------------------------------------------------------------------------------------
+# keys that do not come from an attribute: ':field:' id_spec, callable id_spec, auto-numbered '<featuretype>_<n>' ids that a
+# later literal id hits; colliding features (stored and/or newcomer) without any attribute
+KEY_FIELDS = ["seqid", "source", "featuretype"]
+KEY_COLS = [["seqid", "start"], ["seqid", "start", "end"], ["featuretype", "start"], ["seqid", "featuretype", "start", "end"]]
+
+
+def gen_keyless(rng, fmt, strategy, force, path, form, opts=None):
+    """kind "keyless": case["keyspec"] = {"form": "field", "field": c} (id_spec ':c:' as str or list) |
+    {"form": "callable", "cols": [...]} (id_spec = a function joining these columns with ':') |
+    {"form": "autoid"} (id_spec names the id attribute; features without it get '<featuretype>_<n>').  About half of the
+    colliding arrivals have no attributes at all (empty 9th column)."""
+    opts = dict(opts or {})
+    for k in ("dots", "gtfkeys", "flags", "farbins", "edges"):
+        opts.pop(k, None)
+    idkey = "ID" if fmt == "gff3" else "fid"
+    if form == "field":
+        keyspec = {"form": "field", "field": rng.choice(KEY_FIELDS)}
+        keycols = [keyspec["field"]]
+    elif form == "callable":
+        keyspec = {"form": "callable", "cols": rng.choice(KEY_COLS)}
+        keycols = list(keyspec["cols"])
+    else:
+        keyspec = {"form": "autoid"}
+        keycols = []
+    steer = M.Store(strategy, force)
+    recs = []
+
+    def attrs_for(key, bare):
+        if bare:
+            return []
+        a = attributes(rng, fmt, idkey, key, opts)
+        if form != "autoid":
+            a = [x for x in a if x[0] != idkey]      # the key does not come from an attribute; the line may end up bare
+        return a
+
+    def push(rec):
+        try:
+            steer.arrive_rec(rec, idkey, keyspec)
+        except M.Silent:
+            return False
+        recs.append(rec)
+        return True
+
+    # a leading feature with attributes and a key of its own (lets the GTF dialect be detected from the first line)
+    if fmt == "gtf" or rng.random() < 0.5:
+        lead = dict(columns(rng), seqid="c9", source="lead", featuretype="leadtype", start="1", end="50")
+        lead["attrs"] = attributes(rng, fmt, idkey, "lead", opts)
+        lead["extra"] = []
+        push(lead)
+    if fmt == "gff3" and form == "autoid":
+        for p in PARENTS[:2]:
+            if rng.random() < 0.6:
+                push(dict(columns(rng), featuretype="mRNA", attrs=[["ID", [p]], ["Note", ["parent"]]], extra=[]))
+    base = columns(rng)
+    variants = [base]
+    same_extra = draw_extra(rng, opts) if strategy == "merge" else None
+    todo = rng.choice([2, 3, 3, 4, 5])
+    pattern = []
+    aborted = False
+    guard = 0
+    while todo and guard < 40:
+        guard += 1
+        if len(variants) > 1 and rng.random() < 0.45:
+            vi = rng.randrange(len(variants))
+        elif rng.random() < 0.3:
+            vi = 0
+        else:
+            v = vary(rng, base, force if strategy == "merge" else rng.sample(M.COLS, 2))
+            for c in keycols:
+                if rng.random() < 0.9:
+                    v[c] = base[c]
+            if form == "autoid" and rng.random() < 0.9:
+                v["featuretype"] = base["featuretype"]
+            variants.append(v)
+            vi = len(variants) - 1
+        cols = variants[vi]
+        bare = rng.random() < (0.7 if not pattern else 0.45)
+        if form == "autoid" and not bare:
+            # a literal id that is (or will be) an auto-numbered one
+            ft = cols["featuretype"]
+            n = steer.autoid.get(ft, 0)
+            key = "%s_%d" % (ft, rng.randrange(1, n + 1) if n and rng.random() < 0.85 else n + 1)
+        else:
+            key = "k"
+        rec = dict(cols, attrs=attrs_for(key, bare), extra=draw_extra(rng, opts, same_extra))
+        try:
+            steer.arrive_rec(rec, idkey, keyspec)
+        except M.Silent:
+            continue
+        except M.Abort:
+            recs.append(rec)
+            aborted = True
+            break
+        recs.append(rec)
+        pattern.append(("b" if bare else "") + str(vi))
+        todo -= 1
+        if rng.random() < 0.15:
+            u = dict(columns(rng), seqid="c8", source="uniq", featuretype="utype", start=str(1000 + len(recs)), end="2000")
+            u["attrs"] = attrs_for("u%d" % len(recs), rng.random() < 0.3 and form != "autoid")
+            if form == "autoid" and not u["attrs"]:
+                u["attrs"] = [[idkey, ["u%d" % len(recs)]]]
+            u["extra"] = draw_extra(rng, opts)
+            if form == "field":
+                u[keyspec["field"]] = "uq%d" % len(recs)
+            push(u)
+    if path == "create" or len(recs) < 2:
+        batches = [recs]
+    else:
+        ncut = 1 if (len(recs) < 4 or rng.random() < 0.6) else 2
+        cuts = sorted(rng.sample(range(1, len(recs)), ncut))
+        batches = [recs[i:j] for i, j in zip([0] + cuts, cuts + [len(recs)])]
+    given = list(force)
+    if opts.get("shuffle") and len(given) >= 2:
+        while given == canonical(given):
+            rng.shuffle(given)
+    case = {
+        "kind": "keyless", "fmt": fmt, "strategy": strategy, "force": given, "idkey": idkey, "keyspec": keyspec,
+        "spec_form": (rng.choice(["field", "field-list"]) if form == "field" else "callable" if form == "callable" else
+                      rng.choice(["default", "str", "list"]) if fmt == "gff3" else rng.choice(["str", "list"])),
+        "batches": batches, "reopen": rng.random() < 0.5,
+        "db": "file" if (len(batches) > 1 or rng.random() < 0.25) else "memory",
+        "pass_force_anyway": False, "pattern": [tuple(pattern)],
+    }
+    if opts.get("verbose") is not None:
+        case["verbose"] = opts["verbose"]
+    tags = [k for k in ("extras",) if opts.get(k)]
+    if tags:
+        case["opts"] = tags
+    return case
+
+
+# ---------------------------------------------------------------------------------------------------------------
+# features that SHARE value-list objects
+CONSTS = [["batch", ["b7"]], ["status", ["reviewed"]], ["tags", ["t1", "t2"]], ["Note", ["a"]]]
+
+
+def gen_shared(rng, fmt, strategy, force, mode, opts=None):
+    """kind "shared": case["share"] = {"mode": "transform", "const": [[key, values], ...], "parent": [values] | None}: the
+    text does not carry the const keys; a transform attaches ONE list object per const key to every feature (and, gff3, one
+    Parent list object to every feature that is not an mRNA); the records of the case are the features after the transform.
+    {"mode": "objects" | "iterator" | "clone" | "clone-dict"}: Feature objects; equal (key, values) lists of the whole case
+    are one list object (objects / iterator: interned; clone*: copy.copy() of an earlier feature of the run, own attribute
+    mapping - Attributes or plain dict - whose equal value lists are the template's objects)."""
+    opts = dict(opts or {})
+    for k in ("dots", "flags"):
+        opts.pop(k, None)
+    r = rng.random()
+    if r < 0.25 and strategy != "error":
+        case = gen_multirun(rng, fmt, strategy, force, opts=opts)
+    else:
+        case = gen_history(rng, fmt, strategy, force, rng.choice(["create", "update"]), opts=opts)
+    idkey = case["idkey"]
+    batches = case["batches"]
+    # later features that collide with nothing
+    if strategy != "error" or rng.random() < 0.3:
+        for i in range(rng.choice([1, 2, 3])):
+            rec = dict(columns(rng), attrs=attributes(rng, fmt, idkey, "w%d" % i, opts), extra=draw_extra(rng, opts))
+            batches[-1].append(rec)
+    share = {"mode": mode}
+    recs = [r for b in batches for r in b]
+    if mode == "transform":
+        taken = set(k for r in recs for k, _ in r["attrs"])
+        consts = [c for c in rng.sample(CONSTS, rng.choice([1, 1, 2])) if c[0] not in taken]
+        if not consts:
+            consts = [["batch", ["b7"]]]
+        share["const"] = consts
+        share["parent"] = None
+        if fmt == "gff3" and rng.random() < 0.6:
+            share["parent"] = rng.sample(PARENTS, rng.choice([1, 2]))
+        for rec in recs:
+            attrs = [list(a) for a in rec["attrs"]]
+            if share["parent"] and rec["featuretype"] != "mRNA":
+                if any(a[0] == "Parent" for a in attrs):
+                    attrs = [[a[0], list(share["parent"])] if a[0] == "Parent" else a for a in attrs]
+                else:
+                    attrs.append(["Parent", list(share["parent"])])
+            rec["attrs"] = attrs + [[k, list(v)] for k, v in consts]
+    else:
+        # make value lists coincide: the colliding and the later features take their Parent / Note / Alias ... from few
+        pools = {}
+        for rec in recs:
+            for a in rec["attrs"]:
+                if a[0] == idkey or not a[1]:
+                    continue
+                seen = pools.setdefault(a[0], [])
+                if seen and rng.random() < 0.6:
+                    a[1] = list(rng.choice(seen))
+                else:
+                    seen.append(list(a[1]))
+    case["share"] = share
+    case["kind"] = "shared"
+    case["opts"] = sorted(set(case.get("opts", [])))
+    if not case["opts"]:
+        case.pop("opts")
+    return case
